@@ -3,6 +3,7 @@ package variablesvalidation
 import (
 	"bytes"
 	"fmt"
+	"math"
 
 	"github.com/wundergraph/astjson"
 
@@ -485,6 +486,11 @@ func (v *variablesVisitor) traverseNamedTypeNode(jsonValue *astjson.Value, typeN
 			}
 		case "Int":
 			if jsonValue.Type() != astjson.TypeNumber {
+				v.renderVariableInvalidNestedTypeError(jsonValue, fieldTypeDefinitionNode.Kind, typeName, false)
+				return
+			}
+			// Int is a signed 32-bit integer: no fractional part, within range
+			if number, err := jsonValue.Float64(); err != nil || number != math.Trunc(number) || number > math.MaxInt32 || number < math.MinInt32 {
 				v.renderVariableInvalidNestedTypeError(jsonValue, fieldTypeDefinitionNode.Kind, typeName, false)
 				return
 			}
